@@ -417,3 +417,20 @@ def r7_grid_tables(ctx: Ctx) -> None:
                     ok = True
         if not ok:
             ctx.report(f.where, f"coordinate-links {axis}", f"next_{axis} / prev_{axis} do not link every pair of consecutive {axis} coordinates", lineno=f.node.lineno)
+
+
+@rule("C08", "R8.cost-terms-pure", "PURE",
+      "the integer areas that enter the cost bound are functions of the cell they are asked for: area() stores nothing (no attribute / "
+      "item store, no mutating call, no access to the carrier's attribute dictionary) -- a cache on the shared carrier would answer "
+      "for the previous module's cells when the carrier is re-used", floor=1)
+def r8_area_pure(ctx: Ctx) -> None:
+    f = ctx.func(RECT, "area")
+    MUT = {"setdefault", "setattr", "update", "append", "extend", "insert", "pop", "popitem", "clear", "remove", "add", "vars", "globals", "__setitem__", "__setattr__"}
+    stores = [n for n in walk_own(f.node) if isinstance(n, (ast.Attribute, ast.Subscript)) and isinstance(n.ctx, (ast.Store, ast.Del))]
+    calls = [n for n in walk_own(f.node) if isinstance(n, ast.Call) and call_name(n) in MUT]
+    dicts = [n for n in walk_own(f.node) if isinstance(n, ast.Attribute) and n.attr == "__dict__"]
+    deco = list(f.node.decorator_list)
+    ctx.site(f.where, "area() keeps no state", stores=len(stores), mutating_calls=len(calls), decorators=len(deco))
+    for n in stores + calls + dicts + deco:
+        ctx.report(f.where, f"area-keeps-state {ast.unparse(n)[:60]}", "area() stores something (a cache keyed by the cell index on the shared carrier): for the next module the "
+                   "cost bound is built from the previous module's areas", lineno=getattr(n, "lineno", f.node.lineno))
